@@ -30,8 +30,8 @@ extract-only:
 	  echo -n 'From PV Require Import Extract.Val'; for m in $$mods; do echo -n " Extract.$$m"; done; echo '.'; \
 	  echo 'Extraction Language OCaml.'; \
 	  echo -n 'Extraction "model.ml"'; for e in $$entries; do echo -n " $$e"; done; echo '.'; } > build/ocaml/Extract.v; \
-	{ echo 'open Model'; echo 'let table : (string * (uval -> uval)) list = ['; \
-	  for e in $$entries; do echo "  (\"$${e#e_}\", $$e);"; done; echo ']'; } > build/ocaml/table.ml
+	{ echo 'let table : (string * (Model.uval -> Model.uval)) list = ['; \
+	  for e in $$entries; do echo "  (\"$${e#e_}\", Model.$$e);"; done; echo ']'; } > build/ocaml/table.ml
 	cd build/ocaml && timeout 600 coqc -Q ../../coq PV Extract.v > extract.log 2>&1 || (cat extract.log; exit 1)
 
 driver: extract driver-only
